@@ -186,6 +186,15 @@ func Sel(t *rapid.T, label string) uint8 {
 	return uint8(rapid.IntRange(0, 63).Draw(t, label))
 }
 
+// SelArg draws the argument of a selector write: any uint8, the registers being
+// addressed modulo 64 (255 is what d.SetCSel(d.CSel()-1) passes at CSEL 0).
+func SelArg(t *rapid.T, label string) uint8 {
+	if rapid.IntRange(0, 5).Draw(t, label+".wide") == 0 {
+		return rapid.SampledFrom([]uint8{64, 65, 70, 127, 128, 129, 191, 192, 254, 255}).Draw(t, label)
+	}
+	return Sel(t, label)
+}
+
 // Color draws any ivg colour kind.
 func Color(t *rapid.T, label string) ops.ColorV {
 	switch rapid.IntRange(0, 5).Draw(t, label+".kind") {
